@@ -366,6 +366,10 @@ func propC18(a *Analysis, r *Registry) {
 				r.Fail("C-order", fname+"/recursion", a.W.InstrPos(rec), "the recursive call is not on an element of g.Out(n): "+clip(succ.String(), 120))
 			} else if oa := sa.Args[0].SingleAtom(); oa == nil || len(oa.Args) < 2 || !oa.Args[1].Equal(X.ParamRF(fn, 0)) {
 				r.Fail("C-order", fname+"/recursion", a.W.InstrPos(rec), "successors are not those of the node being visited")
+			} else {
+				// every successor is looked at: the loop over g.Out(n) runs to the end and is not left
+				// from inside an iteration (a `break` at an already-visited successor drops the rest)
+				b.FullScan("C-scan coverage", fname+"/every-successor", a.W.InstrPos(rec), fc, sa.Args[1], S.MakeFn("len", sa.Args[0]))
 			}
 			if fc.Ctx.Dominates(mark.Block(), rec.Block()) && mark.Block() != rec.Block() {
 				r.OK("C-order", fname+"/mark-before-recurse", a.W.InstrPos(mark), "Mark(n) dominates every recursive call")
